@@ -633,7 +633,7 @@ CHECKS = {
         runs={'quick': _c17_runs('quick'), 'thorough': _c17_runs('thorough')},
         budget_s={'quick': 900, 'thorough': 7200},
         coverage=ex_cov,
-        rule='(every file also ABSENT from the model directory, i.e. the library's own existence test fails and no path is configured for it, next to MISSING = configured but unreadable) fault enumeration on decoder_init end to end, per model (en-us, fr-fr, and three synthetic ones for the scorer modules the bundled '
+        rule='(every file also ABSENT from the model directory, i.e. the existence test of the library fails and no path is configured for it, next to MISSING = configured but unreadable) fault enumeration on decoder_init end to end, per model (en-us, fr-fr, and three synthetic ones for the scorer modules the bundled '
              'models do not select) and per file (mdef, means, variances, sendump, mixture_weights, '
              'transition_matrices, feat_params.json, a feature_transform): the file missing; EVERY truncation length in the header and the '
              'first 512 B (quick) / 4 KiB (thorough) of payload, on a stride through the bulk (65536 quick / 2048 thorough) and the last 16 lengths; every 32-bit word of '
